@@ -649,6 +649,10 @@ def std_trait(engine, st, ty, tyb, tb, method, args, dest_ty, trait=None):
         a, b = args
         c = a.t <= b.t
         return IV(zs(z3.If(c, b.t, a.t) if method == 'max' else z3.If(c, a.t, b.t)), a.ty)
+    if tb == 'Ord' and method == 'clamp' and isinstance(args[0], IV):
+        x, lo, hi = args
+        st.panic_if(zs(lo.t > hi.t), 'clamp: min > max')
+        return IV(zs(z3.If(x.t < lo.t, lo.t, z3.If(x.t > hi.t, hi.t, x.t))), x.ty)
     if tb == 'Ord' and method == 'cmp' and isinstance(deref_all(args[0]), IV):
         a, b = deref_all(args[0]), deref_all(args[1])
         return EnumV('Ordering', zs(z3.If(a.t < b.t, -1, z3.If(a.t == b.t, 0, 1))), {})
